@@ -56,6 +56,21 @@ def cases():
     # state boundary (coroutines): define, await, use
     for pre_kind in ("straight", "in_if", "in_loop", "redefined_after_await"):
         out.append({"c": "state", "defs": [1], "pre": 0, "use": pre_kind, "ctx": "coro"})
+    # the same placements with a REFERENCE carrying a run-time index (t = self.d[self.i2]: the index is an intermediate
+    # hidden in the reference) instead of a computed value
+    for name, nb, has_default in CONSTRUCTS:
+        if name not in ("if", "ifelse", "match2d", "for2else", "nestedelse"):
+            continue
+        for defs in itertools.product((0, 1), repeat=nb):
+            for pre in (0, 1):
+                if not any(defs) and not pre:
+                    continue
+                out.append({"c": name, "defs": list(defs), "pre": pre, "use": "after", "ctx": "seq", "dk": "rtref"})
+                for j in range(nb):
+                    if not defs[j]:
+                        out.append({"c": name, "defs": list(defs), "pre": pre, "use": f"sib{j}", "ctx": "seq", "dk": "rtref"})
+    for pre_kind in ("straight", "in_if"):
+        out.append({"c": "state", "defs": [1], "pre": 0, "use": pre_kind, "ctx": "coro", "dk": "rtref"})
     return out
 
 
@@ -112,9 +127,9 @@ def branch_body(c, j, ind):
     pad = " " * ind
     L = []
     if c["defs"][j]:
-        L.append(f"{pad}t = self.d + {K[j]}")
+        L.append(f"{pad}t = self.d[self.i2]" if c.get("dk") == "rtref" else f"{pad}t = self.d + {K[j]}")
     if c["use"] == f"sib{j}":
-        L.append(f"{pad}self.o <<= t")
+        L.append(f"{pad}self.o[0] <<= t" if c.get("dk") == "rtref" else f"{pad}self.o <<= t")
     L.append(f"{pad}self.m <<= {j + 1}")
     return L
 
@@ -132,6 +147,7 @@ def render_src(c):
         "    b = Port.input(Bit)",
         "    c = Port.input(Bit)",
         "    d = Port.input(Unsigned[4])",
+        "    i2 = Port.input(Unsigned[2])",
         "    o = Port.output(Unsigned[4], default=0)",
         "    m = Port.output(Unsigned[4], default=0)",
         "",
@@ -143,6 +159,9 @@ def render_src(c):
     if name == "state":
         H.append("        async def proc():")
         u = c["use"]
+        if c.get("dk") == "rtref":
+            B = ["t = self.d[self.i2]"] + (["await self.a"] if u == "straight" else ["if self.b:", "    await self.a"]) + ["self.o[0] <<= t"]
+            return "\n".join(H + ["            " + l for l in B]) + "\n"
         if u == "straight":
             B = ["t = self.d + 1", "await self.a", "self.o <<= t"]
         elif u == "in_if":
@@ -154,7 +173,7 @@ def render_src(c):
         return "\n".join(H + ["            " + l for l in B]) + "\n"
     H.append("        async def proc():" if c["ctx"] == "coro" else "        def proc():")
     if c["pre"]:
-        B.append(f"t = self.d + {KPRE}")
+        B.append("t = self.d[self.i2]" if c.get("dk") == "rtref" else f"t = self.d + {KPRE}")
     if name in ("if", "ifelse", "ifelif", "ifelifelse"):
         B.append("if self.a:")
         B += branch_body(c, 0, 4)
@@ -203,14 +222,19 @@ def render_src(c):
             B.append("    else:")
             B += branch_body(c, 3, 8)
     if c["use"] == "after":
-        B.append("self.o <<= t")
+        B.append("self.o[0] <<= t" if c.get("dk") == "rtref" else "self.o <<= t")
     if c["ctx"] == "coro":
         B.append("await true")
     return "\n".join(H + ["            " + l for l in B]) + "\n"
 
 
-def model_value(c, br, d):
+def model_value(c, br, d, i2=0):
     """value delivered to o on the path through branch br (None = fall-through), or 'hold' when o is not assigned"""
+    if c.get("dk") == "rtref":
+        bit = (d >> i2) & 1
+        if c["use"] == "after":
+            return bit if ((br is not None and c["defs"][br]) or c["pre"]) else None
+        return bit if br == int(c["use"][3:]) else "hold"
     if c["use"] == "after":
         if br is not None and c["defs"][br]:
             return (d + K[br]) & 15
@@ -225,7 +249,7 @@ def simulate(c, design, seed, idx):
     rs = rng.Stream(seed, "C08", "stim", idx)
     oseed = rng.derive(seed, "C08", "order", idx)
     d = dutm.Dut(design, oseed, "c08")
-    base = {"a": 0, "b": 0, "c": 0, "d": 0}
+    base = {"a": 0, "b": 0, "c": 0, "d": 0, "i2": 0}
     d.start(base)
     o_exp = 0
     forced = set()
@@ -265,12 +289,13 @@ def simulate(c, design, seed, idx):
         inp.update(sel)
         if "d" not in sel:
             inp["d"] = rs.below(16)
+        inp["i2"] = rs.below(4)
         for x in "abc":
             if x not in sel:
                 inp[x] = rs.below(2)
         if c["ctx"] == "coro":
             d.clock(inp)  # the body runs completely, then `await true`: two clocks per iteration
-            v = model_value(c, br, inp["d"])
+            v = model_value(c, br, inp["d"], inp["i2"])
             if v is not None and v != "hold":
                 o_exp = v
             if v is None:
@@ -283,7 +308,7 @@ def simulate(c, design, seed, idx):
             d.half()
         else:
             d.clock(inp)
-            v = model_value(c, br, inp["d"])
+            v = model_value(c, br, inp["d"], inp["i2"])
             if v is None:
                 return "model", {"msg": "accepted although a path leaves the value undefined", "path": sel}, forced
             if v != "hold":
@@ -298,31 +323,75 @@ def simulate(c, design, seed, idx):
     return "ok", {}, forced
 
 
-def library_probe(seed, idx):
-    """the read-before-write monitor on a std library design that keeps a value in the alias variable of a locally
-    constructed Signal(maybe_uninitialized=True) across states: std.axi.axi4_light with AW accepted before W"""
-    from vf.props import c20
+PROBES = ["std.axi-aw-before-w", "await-runtime-index", "bool-cast-chain", "bool-cast-chain-variable"]
 
-    m = {"words": 4, "entries": [{"kind": "mem", "word": 0}, {"kind": "mem", "word": 2}]}
-    design = dutm.compile_design(c20.render_src(m))  # strict classification: alias variables are intermediates
-    ops = [{"op": "w", "addr": 0, "data": 0x12345678, "strb": 15, "aw_delay": 0, "w_delay": 3, "b_ready": "high", "b_late": 0, "gap": 0}, {"op": "r", "addr": 0, "ar_delay": 0, "r_ready": "high", "r_late": 0, "gap": 0}]
-    out = dutm.guarded(lambda: c20.simulate(m, design, ops, seed, idx, False))
-    return out
+PROBE_HEAD = """
+import cohdl
+from cohdl import Bit, BitVector, Unsigned, Port, Signal, Variable, Null, Full, true, false
+from cohdl import std
+class E(cohdl.Entity):
+    clk = Port.input(Bit)
+    a = Port.input(Bit)
+    d = Port.input(Unsigned[4])
+    i2 = Port.input(Unsigned[2])
+    o = Port.output(Unsigned[4], default=0)
+    def architecture(self):
+        @std.sequential(std.Clock(self.clk))
+"""
+PROBE_SRC = {
+    # an awaited expression with a run-time index: the index intermediate is written in the state before the wait
+    "await-runtime-index": PROBE_HEAD + "        async def proc():\n            self.o <<= 1\n            await self.d[self.i2]\n            self.o <<= 2\n",
+    # chains of redundant bool casts (fixed in /repo: the replaced cast source was itself a removed cast)
+    "bool-cast-chain": PROBE_HEAD + "        def proc():\n            x = bool(self.d == 3)\n            if x:\n                self.o <<= 1\n            else:\n                self.o <<= 2\n",
+    "bool-cast-chain-variable": PROBE_HEAD + "        def proc():\n            x = bool(self.d == 3)\n            y = bool(x)\n            z = bool(y)\n            self.o <<= 4 if z else 5\n",
+}
+
+
+def library_probe(seed, idx, name="std.axi-aw-before-w"):
+    """the read-before-write monitor on fixed designs that earlier rounds found: std.axi.axi4_light with AW accepted before W
+    (a value kept in the alias variable of a locally constructed Signal(maybe_uninitialized=True) across states) and small
+    source patterns"""
+    if name == "std.axi-aw-before-w":
+        from vf.props import c20
+
+        m = {"words": 4, "entries": [{"kind": "mem", "word": 0}, {"kind": "mem", "word": 2}]}
+        design = dutm.compile_design(c20.render_src(m))  # strict classification: alias variables are intermediates
+        ops = [{"op": "w", "addr": 0, "data": 0x12345678, "strb": 15, "aw_delay": 0, "w_delay": 3, "b_ready": "high", "b_late": 0, "gap": 0}, {"op": "r", "addr": 0, "ar_delay": 0, "r_ready": "high", "r_late": 0, "gap": 0}]
+        return dutm.guarded(lambda: c20.simulate(m, design, ops, seed, idx, False))
+    try:
+        design = dutm.compile_design(PROBE_SRC[name])
+    except render.Rejected as e:
+        return ("rejected", {"reason": str(e)[:100]}, None)
+    d = dutm.Dut(design, rng.derive(seed, "C08", "probe", idx), "probe")
+    rs = rng.Stream(seed, "C08", "probe", idx)
+
+    def go():
+        d.start({"a": 0, "d": 0, "i2": 0})
+        for _ in range(24):
+            d.clock({"a": rs.below(2), "d": rs.below(16), "i2": rs.below(4)})
+            d.half()
+        return ("ok", {}, None)
+
+    return dutm.guarded(go)
 
 
 def run_one(seed, idx, tier):
-    if idx % (len(CASES) + 1) == len(CASES):
-        res = {"idx": idx, "shape": "probe:std.axi", "case": {"c": "probe", "defs": [], "pre": 0, "use": "std.axi-aw-before-w", "ctx": "coro"}, "expected": "accept"}
-        out = library_probe(seed, idx)
+    slot = idx % (len(CASES) + len(PROBES))
+    if slot >= len(CASES):
+        name = PROBES[slot - len(CASES)]
+        res = {"idx": idx, "shape": "probe:" + name, "case": {"c": "probe", "defs": [], "pre": 0, "use": name, "ctx": "coro"}, "expected": "accept"}
+        out = library_probe(seed, idx, name)
         res["outcome"] = "accepted"
         if len(out) == 2 and out[0] == "rbw":
             res.update(status="violation", vclass="rbw", detail=dict(out[1], case=res["case"]), payload={"case": res["case"], "seed": seed, "idx": idx})
         elif len(out) == 2:
             res.update(status="skipped", reason=str(out[0]))
+        elif out[0] == "rejected":
+            res.update(status="ok", outcome="rejected", reason=out[1]["reason"])
         else:
             res.update(status="ok", paths_forced=1)
         return res
-    c = CASES[idx % (len(CASES) + 1)]
+    c = CASES[slot]
     exp = expected(c)
     key = repr(sorted(c.items()))
     res = {"idx": idx, "shape": hashlib.sha256(key.encode()).hexdigest()[:12], "case": c, "expected": exp}
@@ -360,7 +429,7 @@ def run_one(seed, idx, tier):
 def replay(payload):
     c = payload["case"]
     if c["c"] == "probe":
-        out = library_probe(payload["seed"], payload["idx"])
+        out = library_probe(payload["seed"], payload["idx"], c["use"])
         return (out[0], out[1]) if len(out) == 2 else ("ok", {})
     try:
         design = dutm.compile_design(render_src(c))
@@ -373,7 +442,7 @@ def replay(payload):
 
 
 def plan(tier):
-    return (len(CASES) + 1) * (1 if tier == "quick" else 6)
+    return (len(CASES) + len(PROBES)) * (1 if tier == "quick" else 6)
 
 
 def finding_key(r):
